@@ -9,7 +9,8 @@ from ..engines import faults
 from ..engines.enum import product, run_enum, replay_case
 from ..sys_array import viol
 
-ROWS = {'big1d': (512,), 'big2d': (16, 32), 'big3d': (8, 8, 8), 'small': (64,)}
+ROWS = {'big1d': (512,), 'big2d': (16, 32), 'big3d': (8, 8, 8), 'small': (64,),
+        'mid': (500,)}     # 4000 B rows: larger than every text file Darr rewrites, smaller than the 4 KiB stdio buffer
 DT = np.dtype('<f8')
 README_FLOOR = 3900        # every text file Darr rewrites during recovery is smaller than this
 
@@ -88,6 +89,19 @@ def evaluate(case):
         else:
             arg = list(items)
         call = lambda: a.iterappend(arg)
+    pre_chunk = None
+    if case.get('inctx'):
+        # the failing call runs inside an open_array() context in which an earlier append already succeeded
+        pre_chunk = payload.values('J', 1, tr, DT)
+        inner = call
+
+        def call():
+            with a.open_array():
+                a.append(pre_chunk)
+                inner()
+        orig = np.concatenate([orig, pre_chunk]).astype(DT)
+        if kind == 'rlimit':
+            return [], None, 0            # limits are computed for the plain entry points only
     if kind == 'rlimit':
         with faults.file_size_limit(L):
             w, v = outcome_of(call)
@@ -98,7 +112,8 @@ def evaluate(case):
     where = 'first chunk' if completed == 0 else 'later chunk'
     pre = f'start={start},{"small" if rows == "small" else "big"} rows,{where}'
     opname = entry.split('-')[0]
-    desc = (f'{entry} of {n} chunk(s) onto {start} array (rows of {rb} B), fault {kind} '
+    desc = (('inside an open_array() context after a completed append: ' if case.get('inctx') else '') +
+            f'{entry} of {n} chunk(s) onto {start} array (rows of {rb} B), fault {kind} '
             + (f'at byte limit {L}' if kind == 'rlimit' else f'at position {pos}'))
 
     def add(sym, msg):
@@ -131,13 +146,13 @@ def evaluate(case):
             add('a subsequent ordinary append fails or lands wrongly', f'{av!r:.100}')
     rmtree(path)
     fired = (w == 'raises')
-    return V, ('fault', start, rows, entry, kind, where, fired), 1
+    return V, ('fault', start, rows, entry, kind, where, fired, bool(case.get('inctx'))), 1
 
 
 def build_cases(tier):
     q = tier == 'quick'
     cases = []
-    rowsets = ['big1d', 'big2d', 'big3d', 'small'] if not q else ['big1d', 'big2d', 'small']
+    rowsets = ['big1d', 'big2d', 'big3d', 'small', 'mid'] if not q else ['big1d', 'big2d', 'small', 'mid']
     # non-I/O kinds
     for rows in rowsets:
         for start in ('empty', 'nonempty'):
@@ -147,6 +162,11 @@ def build_cases(tier):
                         for entry in ('iterappend-list', 'iterappend-gen'):
                             cases.append({'rows': rows, 'start': start, 'entry': entry, 'nchunks': n, 'kind': kind,
                                           'position': pos})
+            for n in (1, 2):
+                for pos in range(0, n + 1):
+                    for kind in ('iter-raises', 'badtrail', 'unconv'):
+                        cases.append({'rows': rows, 'start': start, 'entry': 'iterappend-list', 'nchunks': n, 'kind': kind,
+                                      'position': pos, 'inctx': True})
             for kind in ('badtrail', 'badrank', 'unconv', 'badtrail0', 'badzero'):
                 cases.append({'rows': rows, 'start': start, 'entry': 'append', 'nchunks': 0, 'kind': kind, 'position': 0})
     # kernel-enforced write failure
@@ -179,10 +199,10 @@ def run(tier):
     nio = sum(1 for c in cases if c['kind'] == 'rlimit')
     return run_enum(
         'C09', tier, 'dv.checks.c09:evaluate', cases, chunk=16, level='fault_enumeration', engine='faults',
-        rule=('one deviation per execution: start {empty, non-empty} x row sizes {4 KiB rows in 1-D/2-D/3-D, 512 B rows} x '
+        rule=('one deviation per execution: start {empty, non-empty} x row sizes {4 KiB rows in 1-D/2-D/3-D, 4000 B rows (below the stdio buffer), 512 B rows} x '
               '0..3 chunks of 1-2 rows x failure position 0..n x kind {iterable raises a custom exception / ValueError, chunk '
               'of wrong trailing shape (also with zero rows / a zero extent), wrong rank, unconvertible element} x entry {append, iterappend(list), '
-              'iterappend(generator)}; and kernel-enforced write failure (RLIMIT_FSIZE, SIGXFSZ ignored) at '
+              'iterappend(generator), and the same inside an open_array() context after a completed append}; and kernel-enforced write failure (RLIMIT_FSIZE, SIGXFSZ ignored) at '
               + ('the offsets b-1, b, b+1, b+itemsize/2, b+itemsize, b+row/2, b+row-1, b+row, b+row+1 around every chunk '
                  'boundary b' if tier == 'quick' else 'EVERY byte offset of the growth region')
               + '; oracle: raises, fresh open succeeds, decoder-consistent, contents == original + completed chunks, live == '
